@@ -65,6 +65,9 @@ def cases(ctx):
         nrows = int(rng.choice([4, 8, 20, 60, 150, 400], p=[.1, .15, .25, .25, .15, .1]))
         for c in range(ncol):
             vals = [str(x) for x in rng.choice(pool, int(rng.integers(1, 4 if ncol > 1 else 6)), replace=False)]
+            if rng.random() < 0.2:  # "any characters": a value that differs from another one only by leading / trailing whitespace or case
+                vals.append(vals[0] + str(rng.choice([" ", "\t", "  "])) if rng.random() < 0.6 else str(rng.choice([" " + vals[0], vals[0].swapcase(), vals[0] + "."])))
+                vals = list(dict.fromkeys(vals))
             cols[f"g{c}"] = [str(x) for x in rng.choice(vals, nrows)]
         kind = str(rng.choice(["uniform", "lattice", "gauss"]))
         if kind == "uniform":
